@@ -193,6 +193,10 @@ def judge_raw(cobj, res, model_text="", labels=()):
                     v = ("failure-with-success-code", "the solver was never reached but the .sol reports code %d; message %r" % (s.code, msg[:200]))
                 elif len(msg) < 5:
                     v = ("failure-without-message", "failure code %d with empty message" % s.code)
+                elif bool(re.search(r"\binfeasible\b", msg, re.I)) != (200 <= s.code <= 299):
+                    # the code's class must match the diagnosed cause: 200-299 for a model proven infeasible during conversion, 500-999 otherwise
+                    v = ("code-class-does-not-match-cause", "the message %s infeasibility but the .sol code is %d; message %r" % (
+                        "diagnoses" if re.search(r"\binfeasible\b", msg, re.I) else "does not diagnose", s.code, msg[:200]))
                 kind = "A-failure"
             else:
                 kind = "A-ok"
@@ -273,6 +277,18 @@ def run(ctx):
     common.build("build/vd/vdriver")
     known = {k for k, r in common.load_known(ctx.pid).items() if r.get("status") == "known"}
     res = hyp.run_property(ctx, cases(), judge, ctx.pick(8000, 300000), known_keys=known, time_budget=ctx.pick(300, 900))
+    import glob
+    for f in sorted(glob.glob(os.path.join(common.ROOT, "regress", ctx.pid, "*.json"))):
+        try:
+            c = json.load(open(f))
+            if "nl_b64" not in c:
+                continue
+            v = judge_raw(c, res)
+        except Exception as e:      # an old-format file: skip
+            res.notes.append("regress file %s not replayed: %s" % (os.path.basename(f), e))
+            continue
+        if v and v[2] not in known:
+            res.violation("regression input fails again: %s: %s" % (os.path.basename(f), v[0][:300]), None, f)
     for desc, what in bigm_sweep(res):
         path = common.save_replay(ctx.pid, {"bigm_sweep": what})
         res.violation(desc, None, path)
